@@ -240,6 +240,11 @@ PROPS['C07'] = {
     'anchors': ['consensus/src/synchronizer.rs', 'consensus/src/helper.rs', 'consensus/src/core.rs'],
 }
 
+# C20, last sentence ("through the store, as the sync path does"): the block a REAL helper serves from the store of a REAL core must be accepted
+# (same digest, still verifies) by the node that asked for it -- the catch-up run; a handful of cases in the quick tier
+PROPS['C20']['vo'] = PROPS['C20']['vo'] + [v for v in PROPS['C07']['vo'] if v not in PROPS['C20']['vo']]
+PROPS['C20']['corr'] = PROPS['C20']['corr'] + [{'name': 'catchup', 'bin': 'catchup', 'mode': 'run', 'emit': 'catchup', 'quick': 12, 'thorough': 200, 'layout': catchup_layout, 'timeout': 600, 'coq_timeout': 900}]
+
 for _p in ('C01', 'C02', 'C03', 'C04', 'C05', 'C08', 'C09', 'C10', 'C15', 'C19'):
     PROPS[_p]['anchors'] = CORE_ANCHORS
 for _p in ('C02', 'C03', 'C04', 'C05', 'C06', 'C08', 'C09', 'C10', 'C15', 'C19'):
@@ -270,7 +275,7 @@ TIE = {
     'process_block': ['C01', 'C02', 'C03', 'C05', 'C06', 'C07', 'C08', 'C09'],
     'handle_proposal': ['C01', 'C03', 'C04', 'C05', 'C06', 'C07', 'C08', 'C09', 'C10'],
     'handle_tc': ['C01', 'C04', 'C06', 'C09', 'C10'],
-    'store_block': ['C02', 'C07'],
+    'store_block': ['C02', 'C07', 'C20'],
     'get_ancestors': ['C02', 'C05', 'C07'],
     'get_parent_block': ['C02', 'C05', 'C07'],
     'mempool_verify': ['C08', 'C13'],
